@@ -38,7 +38,7 @@ def detect_fixes(repo):
 
 BASE = dict(NReq=2, Tags={1, 2}, Fids={1}, Kinds={"Stat", "Flush"}, FixFallthrough=False, FixStale=False,
             FixClose=False, FixOrder=False, FixChain=False, FixBound=False, SharedTags=False, HasFlushOp=False, Extra=False, Late=False, PoolCap=4, Maxpend=0,
-            InitFids={1}, CanClose=False, Held=set())
+            InitFids={1}, CanClose=False, Held=set(), NoTag=0)
 
 
 def consts(ctx, **over):
@@ -52,7 +52,7 @@ def consts(ctx, **over):
 def harness_cfg(c, handshake=True, bystander=False, processops=False):
     return {"NT": max(c["Tags"]), "NF": max(c["Fids"]), "HasFlushOp": c["HasFlushOp"],
             "InitFids": sorted(c["InitFids"]), "Maxpend": c["Maxpend"], "Dotu": True, "Handshake": handshake,
-            "Bystander": bystander, "FixClose": bool(c.get("FixClose")), "ProcessOps": processops}
+            "Bystander": bystander, "FixClose": bool(c.get("FixClose")), "ProcessOps": processops, "NoTag": int(c.get("NoTag", 0) or 0)}
 
 
 def normalise_ext(src, dst):
